@@ -536,7 +536,7 @@ pub(crate) mod verif_hdr_enc {
                 assert!(W_WRITES == 0 && W_FLUSHES == 0 && EC.0 == 0 && SRC_READS == 0, "[C05,C13] after a refused key exchange nothing is written, flushed or read");
             } else {
                 assert!(EC.0 == 1, "[C01,C02] the chunk loop runs once");
-                assert!(EC.6 == 132 && EC.7 == 132, "[C06,C08,C13] the 132-byte header is written and flushed before the first chunk");
+                assert!(EC.6 == 132 && EC.7 == 132, "[C06,C08,C13,C11] the 132-byte header is written and flushed before the first chunk (output is produced incrementally, not held back in a buffer)");
                 let mut ok = w.out[0] == 0x65 && w.out[1] == 0x67 && w.out[2] == 0x6b && w.out[3] == 0x10;
                 let mut j = 0;
                 while j < 128 { if w.out[4 + j] != N_CT[j] { ok = false; } j += 1; }
@@ -591,7 +591,7 @@ pub(crate) mod verif_hdr_enc {
             let mut j = 0;
             while j < 4 { if j < pl { assert!(SC.1[j] == pwb[j], "[C02] scrypt gets the password bytes unchanged"); } j += 1; }
             assert!(SC.5 == 32768 && SC.6 == 8 && SC.7 == 1 && SC.8 == 32, "[C02,C06,C09] scrypt parameters N=32768, r=8, p=1, 32-byte key");
-            assert!(EC.0 == 1 && EC.6 == 36 && EC.7 == 36, "[C06,C08] the 36-byte header is written and flushed before the first chunk");
+            assert!(EC.0 == 1 && EC.6 == 36 && EC.7 == 36, "[C06,C08,C11] the 36-byte header is written and flushed before the first chunk (output is produced incrementally, not held back in a buffer)");
             let mut ok = w.out[0] == 0x65 && w.out[1] == 0x67 && w.out[2] == 0x6b && w.out[3] == 0x20;
             let mut j = 0;
             while j < 32 { if w.out[4 + j] != salt[j] { ok = false; } j += 1; }
